@@ -30,7 +30,7 @@ for c in $CHECKS; do
   rc=$?
   t1=$(date +%s)
   key=$(echo "$out" | grep -o "key=[^ ]*" | head -2 | tr '\n' ' ')
-  case $rc in 1) v=CAUGHT;; 0) v=MISSED;; *) v="INCONCL($(echo "$out" | grep -o 'reason=[^ ]*' | head -1))";; esac
+  case $rc in 1) if echo "$out" | grep -q "^VIOLATION property="; then v=CAUGHT; else v="CRASHED($(echo "$out" | tail -1 | cut -c1-60))"; fi;; 0) v=MISSED;; *) v="INCONCL($(echo "$out" | grep -o 'reason=[^ ]*' | head -1))";; esac
   res="$res | $c $v $((t1-t0))s $key"
 done
 line="$ID $PROP demo_clean=$dc demo_patched=$dp tests=[$tests]$res"
